@@ -352,6 +352,8 @@ def rff(S, what, n1=2, n2=3, d=2, D=2):
             cross = dense(k(x1, x2))
             same = dense(k(x1, x1))
             dg = k(x2, x2, diag=True)
+            dgx = k(x1, x2[:n1], diag=True)  # cross-covariance diagonal: two DIFFERENT point sets of equal length
+        S.prove_eq(dgx, np.diagonal(ref(X1, X2[:n1], ls)), "RFF diag of the cross-covariance K(x1, x2[:n1])")
         S.prove_eq(cross, ref(X1, X2, ls), "RFF K(x1,x2) = feature inner products / D")
         S.prove_eq(same, ref(X1, X1, ls), "RFF K(x,x) (root path)")
         S.prove_eq(dg, np.diagonal(ref(X2, X2, ls)), "RFF diag")
